@@ -573,6 +573,13 @@ impl Prop for C17Prop {
         for t in ["a\0b é", "${x}", "%{x}", "\\${x}", "fo", "foo", "foob", "fooba", "foobar", "\"quoted\"", " lead", "trail ", "a=b # c"] {
             out.push(text_case(t, "text-fixed"));
         }
+        // lengths around powers of two and multiples of three (block boundaries of encoders)
+        for n in [62usize, 63, 64, 65, 127, 128, 129, 191, 192, 193, 254, 255, 256, 257, 258, 259, 511, 512, 513, 514, 767, 768, 769, 1023, 1024, 1025, 4095, 4096, 4097] {
+            out.push(text_case(&"a".repeat(n), "text-fixed-long"));
+            let mixed: String = "é漢😀x".chars().cycle().take(n / 2).collect();
+            out.push(text_case(&mixed, "text-fixed-long"));
+            out.push(bytes_case(&(0..n).map(|i| (i * 7 % 256) as u8).collect::<Vec<u8>>()));
+        }
         // bytes
         out.push(bytes_case(&[]));
         for b in 0..=255u8 {
@@ -650,9 +657,13 @@ impl Prop for C17Prop {
     }
     fn generate(&self, rng: &mut Rng, _tier: Tier) -> Case {
         match rng.below(20) {
-            0..=4 => text_case(&gen_text(rng, 12), "text-random"),
+            0..=4 => {
+                // mostly short; one in six long (block / buffer boundaries of the encoders)
+                let max = match rng.below(18) { 0 => 300, 1 => 1100, 2 => 70, _ => 12 };
+                text_case(&gen_text(rng, max), if max > 12 { "text-random-long" } else { "text-random" })
+            }
             5 | 6 => {
-                let n = rng.below(11);
+                let n = match rng.below(18) { 0 => 250 + rng.below(20), 1 => rng.below(1200), _ => rng.below(11) };
                 let b: Vec<u8> = if rng.chance(1, 2) {
                     (0..n).map(|_| rng.below(256) as u8).collect()
                 } else {
